@@ -97,6 +97,11 @@ theorem norm2_3_nonneg (v : V3 ℝ) : 0 ≤ norm2_3 v := by
   rw [norm2_3_eq]
   nlinarith [mul_self_nonneg v.x, mul_self_nonneg v.y, mul_self_nonneg v.z]
 
+/-- the determinant in the operation order of `DenseMatrix::determinant` (translated) is the determinant -/
+theorem det3m_eq (A : M3 ℝ) : det3m A = det3 A := by
+  unfold det3m Gen.det3 det3
+  ring
+
 /-! ## cross products of rows lie in the kernel of a singular matrix -/
 
 theorem cross_eq (u v : V3 ℝ) :
@@ -301,13 +306,17 @@ theorem eigenValuesVectors3d_smul (sqrt acos cos : ℝ → ℝ) (pi eps s : ℝ)
   · refine Prod.ext (Prod.ext ?_ (Prod.ext ?_ ?_)) rfl <;> simp only <;> ring
   · refine Prod.ext (Prod.ext ?_ (Prod.ext ?_ ?_)) rfl <;> simp only <;> ring
 
+theorem diagBranchVec_zeroM3 (eps : ℝ) (he : 0 ≤ eps) : diagBranchVec eps zeroM3 = true := by
+  unfold diagBranchVec
+  rw [decide_eq_true_eq, norm2_3_eq]
+  unfold Gen.ev3_vecThreshold zeroM3
+  simpa using he
+
 theorem eigenValuesVectors3d_zeroM3 (sqrt acos cos : ℝ → ℝ) (pi eps : ℝ) (he : 0 ≤ eps) :
     (eigenValuesVectors3d sqrt acos cos pi eps zeroM3).1 = (0, 0, 0) := by
   unfold eigenValuesVectors3d
-  simp only [maxAbsElement_zeroM3, sdiv3_zeroM3, impl_zeroM3 sqrt acos cos pi eps he]
-  split_ifs with h
-  · simp [swapIf, zeroM3]
-  · simp
+  simp only [maxAbsElement_zeroM3, sdiv3_zeroM3, diagBranchVec_zeroM3 eps he, if_true]
+  simp [swapIf, zeroM3]
 
 
 end DV.C08
